@@ -673,9 +673,19 @@ func (m *Machine) callStatic(fr *frame, in ssa.CallInstruction, fn *ssa.Function
 	return m.callStaticBind(fr, in, fn, args, nil)
 }
 
+// canon maps a function to the name the models know it by (set once per loaded
+// program before any exploration starts, read-only afterwards).
+var canon = map[*ssa.Function]string{}
+
+// SetCanon makes the evaluator look fn up under name.
+func SetCanon(fn *ssa.Function, name string) { canon[fn] = name }
+
 func fnKey(fn *ssa.Function) string {
 	if o := fn.Origin(); o != nil {
-		return o.String()
+		fn = o
+	}
+	if n, ok := canon[fn]; ok {
+		return n
 	}
 	return fn.String()
 }
